@@ -113,17 +113,17 @@ FSeqsFull == {<<FF(Fn_fodd), FF(Fn_ferr)>>} \cup {<<x>> : x \in F1} \cup {<<x, y
          \cup {<<FF(Fn_f1), AF(Fn_g1), FF(Fn_f2)>>, <<AF(Fn_g1), AF(Fn_g2), FF(Fn_f3)>>, <<FF(Fn_fodd), FF(Fn_f2), AF(Fn_g2)>>}
 FSeqs == IF FuncSet = "small" THEN FSeqsSmall ELSE FSeqsFull
 
-AllSp == [q : {39, 34}, brk : BOOLEAN, spc : BOOLEAN, omit : BOOLEAN, plus : BOOLEAN, up : BOOLEAN]
+AllSp == [q : {39, 34}, brk : BOOLEAN, spc : {0, 1}, omit : BOOLEAN, plus : BOOLEAN, up : BOOLEAN]
 RECURSIVE SetToSeqSp(_)
 SetToSeqSp(S) == IF S = {} THEN <<>> ELSE LET x == CHOOSE y \in S : TRUE IN <<x>> \o SetToSeqSp(S \ {x})
 SpList == IF Spellings = "canon" THEN <<Canon>>
           ELSE IF Spellings = "omit" THEN <<Canon, [Canon EXCEPT !.omit = TRUE], [Canon EXCEPT !.omit = TRUE, !.brk = TRUE]>>
           ELSE IF Spellings = "all64" THEN <<Canon>> \o SetToSeqSp(AllSp \ {Canon})
           ELSE <<Canon,
-                 [Canon EXCEPT !.spc = TRUE], [Canon EXCEPT !.q = 34], [Canon EXCEPT !.brk = TRUE],
+                 [Canon EXCEPT !.spc = 1], [Canon EXCEPT !.spc = 2], [Canon EXCEPT !.spc = 3], [Canon EXCEPT !.spc = 4], [Canon EXCEPT !.q = 34], [Canon EXCEPT !.brk = TRUE],
                  [Canon EXCEPT !.omit = TRUE], [Canon EXCEPT !.plus = TRUE], [Canon EXCEPT !.up = TRUE],
-                 [q |-> 34, brk |-> TRUE, spc |-> TRUE, omit |-> TRUE, plus |-> TRUE, up |-> TRUE],
-                 [q |-> 39, brk |-> TRUE, spc |-> FALSE, omit |-> TRUE, plus |-> TRUE, up |-> FALSE]>>
+                 [q |-> 34, brk |-> TRUE, spc |-> 1, omit |-> TRUE, plus |-> TRUE, up |-> TRUE],
+                 [q |-> 39, brk |-> TRUE, spc |-> 0, omit |-> TRUE, plus |-> TRUE, up |-> FALSE]>>
 
 VARIABLES doc, steps, funcs, n
 vars == <<doc, steps, funcs, n>>
